@@ -686,11 +686,12 @@ class SubOp:
         return [tuple(t[0])] + [tuple(re.sub("[xa]", "Z", "" if v is None else str(v), count=a["count"]) if j == i else v for j, v in enumerate(r)) for r in t[1:]]
 
 
-@op("accessors")
 class Accessors:
-    @staticmethod
-    def args(draw, t):
-        return {"which": draw(st.sampled_from(["values", "values2", "data", "dicts", "records", "namedtuples", "columns", "header"])),
+    which = None
+
+    @classmethod
+    def args(cls, draw, t):
+        return {"which": cls.which,
                 "field": fieldspec(draw, t[0], max_n=2, min_n=2) if len(t[0]) >= 2 else None, "missing": draw(st.sampled_from([None, "M"])),
                 "slice": draw(st.sampled_from([None, [1, None], [0, 2]]))}
 
@@ -746,6 +747,9 @@ class Accessors:
             return [(nm, [R.cell(r, i, m) for r in rows]) for i, nm in enumerate(hdr)]
         return [tuple(hdr), tuple(str(x) for x in hdr)]
 
+
+for _w in ["values", "values2", "data", "dicts", "records", "namedtuples", "columns", "header"]:
+    op("acc-" + _w)(type("Acc_" + _w, (Accessors,), {"which": _w}))
 
 NAMES = sorted(OPS)
 IDENT = ["k", "j", "a", "b", "c", "v", "w", "x", "y", "foo"]
@@ -804,5 +808,5 @@ def check(case, ctx):
     return None
 
 
-SUBS = [Sub("rowops", check, strategy=case, quick=16000, thorough=300000)]
+SUBS = [Sub("rowops", check, strategy=case, quick=24000, thorough=400000)]
 KNOWN = {}
